@@ -46,10 +46,11 @@ def d1(chk, prog):
             return obj
         model.method_prims["subdivide"] = subdivide
 
-        def into_ranges(it, obj, other, column, default, summary_func=None, events=events):
+        def ann_values(it, obj, other, column, default, summary_func=None, events=events):
             events.append(("into_ranges", column, default, other.data.n))
-            return Vec(["ANN"] * other.data.n)
-        model.method_prims["into_ranges"] = into_ranges
+            return [f"ANN{i}" for i in range(other.data.n)]
+        # the Series is labelled the way the real into_ranges labels it: after the zero-width bait was dropped the table's index is not 0..n-1
+        model.method_prims["into_ranges"] = into_ranges_stub(prog, ann_values)
         model.prims["skgenome.tabio.read_auto"] = lambda it, f: make_ga("GenomicArray", [dict(chromosome="chr1", start=0, end=10, gene="ANN")], {"filename": f}, exact=True)
         model.prims["cnvlib.antitarget.compare_chrom_names"] = lambda it, a, b: (set(), set())
         it = Interp(prog, model)
@@ -64,7 +65,7 @@ def d1(chk, prog):
         ok = ok and (anns == [("into_ranges", "gene", "-", 2)] if annotate else anns == [])
         genes = list(out.data.cols["gene"].v)
         if annotate and not short:
-            ok = ok and genes == ["ANN", "ANN"]
+            ok = ok and genes == ["ANN0", "ANN1"]
         if not annotate and not short:
             ok = ok and genes == ["a|X,b|Y", "c|Z"]
         tb.cell(ok, dict(do_split=do_split, annotate=annotate, short_names=short, rows_out=out.data.n, events=[e[:3] for e in events], genes=[repr(g) for g in genes]))
@@ -201,6 +202,7 @@ def run(chk):
 _T = "cnvlib/target.py"
 _A = "cnvlib/antitarget.py"
 MUTANTS = [
+    dict(name="regress: into_ranges returns its values on a fresh 0..n-1 index (pre-fix code)", edits=[("skgenome/intersect.py", "        return pd.Series([default] * len(dest), index=dest.index)", "        return pd.Series([default] * len(dest))"), ("skgenome/intersect.py", "    return pd.Series(result, index=dest.index)", "    return pd.Series(result)")]),
     dict(name="twin: empty baits dropped before the copy", expect="silent", file="cnvlib/target.py", old="    tgt_arr = bait_arr.copy()\n    # Drop zero-width regions\n    tgt_arr = tgt_arr[tgt_arr.start != tgt_arr.end]", new="    tgt_arr = bait_arr[bait_arr.start != bait_arr.end].copy()"),
     dict(name="target: copy dropped", file=_T, old="    tgt_arr = bait_arr.copy()\n    # Drop zero-width regions\n    tgt_arr = tgt_arr[tgt_arr.start != tgt_arr.end]", new="    tgt_arr = bait_arr\n    tgt_arr.data = tgt_arr.data[tgt_arr.start != tgt_arr.end]"),
     dict(name="target: zero-width baits kept", file=_T, old="    tgt_arr = tgt_arr[tgt_arr.start != tgt_arr.end]\n", new=""),
